@@ -201,14 +201,40 @@ def main(pid="C05", rep=None, finish=True):
                     elif n % 10007 == 0:
                         rep.sample({"rules_as": vname, "rules": rules, "url": url, "cert": s["cert"], "answer": out,
                                     "delivered": "/".join(served) if served else None})
+        # B2: longer paths than the enumerated instance holds (4-6 segments of the same alphabet: several ".." in a row, a
+        # climb out of a rule's prefix and back in, encoded and double-encoded segments in the middle), every one judged by
+        # the observation specification - an instance can be too small to contain the shape that matters
+        alphabet = sorted({t for s in cases for t in s["path"]})
+        rule_lists = [plain(g[0]["rules"]) for g in by_rules.values()]
+        nb2 = 0
+        for _ in range(12000 if thorough else 2500):
+            rules = rnd.choice(rule_lists)
+            toks = [rnd.choice(alphabet) for _ in range(rnd.randint(4, 6))]
+            trailing = rnd.random() < 0.4
+            cert = rnd.choice(["none", "c1", "c2"])
+            vname = rnd.choice(["objects", "toml"])
+            cfg = None if not rules else (rules_objects(rules, fps) if vname == "objects" else rules_toml(rules, fps, root))
+            url = spell(toks, trailing, rnd)
+            wire = run_plain(loop, cfg, handler, url, ders[cert])
+            out, served, leak = classify(wire)
+            n += 1
+            nb2 += 1
+            if leak:
+                rep.violation({"formula": "NoContentOnRefusal", "out": out}, "refusal %r for %s reveals content of %s" % (wire[:40], url, leak), None)
+            suspects.append({"rules": [{"prefix": r_["prefix"], "require": r_["require"], "haslist": r_["fps"]["has"],
+                                        "list": sorted(r_["fps"]["set"])} for r_ in rules],
+                             "path": toks, "trailing": trailing, "cert": cert, "out": out,
+                             "served": list(served) if served else ["-none-"], "_url": url, "_variant": vname,
+                             "_model": "(longer path: judged by the observation specification only)", "_wire": wire[:60].decode("latin1"), "_b2": True})
+        rep.add("longer_paths_judged_by_obs", nb2)
         rep.add("evaluations", n)
         rep.set("distinct_nontrivial", len(distinct))
         rep.add("traces_validated_against_impl", n)
         if thorough:
             tls_pass(rep, rnd, root, fps)
-        rep.set("nonconforming_executions", len(suspects))
+        rep.set("nonconforming_executions", len([c for c in suspects if not c.get("_b2")]))
         if suspects:
-            cap = suspects[:5000]
+            cap = [c for c in suspects if not c.get("_b2")][:5000] + [c for c in suspects if c.get("_b2")]
             fd, tpath = tempfile.mkstemp(prefix="vf-ca-", suffix=".json")
             with os.fdopen(fd, "w") as f:
                 json.dump([{k: v for k, v in c.items() if not k.startswith("_")} for c in cap], f)
@@ -228,7 +254,7 @@ def main(pid="C05", rep=None, finish=True):
                     c["_variant"], c["rules"], c["_url"], c["cert"], c["_wire"], "/".join(c["served"]), c["_model"])
                 if names_:
                     rep.violation({"formula": names_[0], "cert": c["cert"], "out": c["out"]}, "%s falsified: %s" % (names_, desc), c)
-                else:
+                elif not c.get("_b2") or (len(fl) > 2 and not fl[2]):
                     rep.drifted("answer differs from the model, C05 formulas hold: " + desc)
         rep.set("rule", "TLC-enumerated (rule list, path spelling, certificate) cases x rules as objects and as TOML, each sent through "
                 "the real protocol + chain + static handler; distinct = distinct (rules, tokens, trailing, cert, rules-variant)")
